@@ -244,6 +244,27 @@ def _f_genomic(ctx, x):
     return [iv], call
 
 
+def _decl_clip(V):
+    for i in range(2):
+        s_ = V.int(f"s{i}", -1, 2); e_ = V.int(f"e{i}", 1, 5)
+        V.assume(s_.t < e_.t)
+
+
+@reg("genomic_clip", _decl_clip)
+def _f_genomic_clip(ctx, x):
+    """clip() of intervals that stick out of their chromosome (a negative start, a stop beyond the size): the caller's table keeps its values"""
+    import bionumpy as bnp
+    from bionumpy.datatypes import Interval
+    g = bnp.Genome.from_dict({"chr1": 3, "chr2": 3})
+    iv = Interval(["chr1", "chr2"], ctx.arr([x["s0"], x["s1"]], "int64"), ctx.arr([x["e0"], x["e1"]], "int64"))
+    gi = g.get_intervals(iv)
+
+    def call():
+        c = gi.clip()
+        return [ctx.lst(c.start), ctx.lst(c.stop), ctx.lst(gi.start), ctx.lst(gi.stop)]
+    return [iv], call
+
+
 class Pure(Harness):
     name = "pure_functions"
     functions = tuple(REGISTRY)
@@ -351,8 +372,8 @@ class ChunkFields(Harness):
 
     def skeletons(self, tier, seed):
         return [dict(kind=k, mode=m) for k in ("bed12", "bed6", "fastq", "vcf")
-                for m in ("write_read_write", "read_twice", "read_replace_write", "slice_write_read_parent", "read_copy_read")
-                if not (k in ("fastq", "vcf") and m == "read_replace_write")]
+                for m in ("write_read_write", "read_twice", "read_replace_write", "slice_write_read_parent", "read_copy_read", "replace_chain")
+                if not (k in ("fastq", "vcf") and m in ("read_replace_write", "replace_chain"))]
 
     def _file(self, skel, x):
         kind = skel["kind"]
@@ -439,6 +460,15 @@ class ChunkFields(Harness):
             again = chunk[:]
             res["f2"] = {nm: _snap(ctx, getattr(again, nm)) for nm in names if res["f1"][nm] != "unnormalised"}
             res["f1"] = {k: v for k, v in res["f1"].items() if v != "unnormalised"}
+        elif skel["mode"] == "replace_chain":
+            # a table that already carries a replaced column is the ARGUMENT of a second replace(): it keeps its own columns and bytes
+            c2 = replace(chunk, start=ctx.arr([x["new0"], x["new1"]], "int64"))
+            res["f1"] = {nm: _snap(ctx, getattr(c2, nm)) for nm in ("start", "stop")}
+            res["w1"] = write(c2)
+            c3 = replace(c2, stop=ctx.arr([x["new1"] + 100, x["new0"] + 100], "int64"))
+            res["c3"] = {nm: _snap(ctx, getattr(c3, nm)) for nm in ("start", "stop")}
+            res["f2"] = {nm: _snap(ctx, getattr(c2, nm)) for nm in ("start", "stop")}
+            res["w2"] = write(c2)
         elif skel["mode"] == "read_copy_read":
             # the chunk's fields are read; a replace() copy (one field set to the value it already has) is made and ITS fields are read:
             # the values held by the chunk itself must not move
@@ -478,6 +508,13 @@ class ChunkFields(Harness):
         if skel["mode"] == "read_copy_read":
             ok = P._eq(out["f1"], out["f2"], conj) and P._eq(out["f1"], out["fc"], conj)
             return z_and(conj) if ok else False
+        if skel["mode"] == "replace_chain":
+            ok = P._eq(out["f1"], out["f2"], conj) and P._eq(out["w1"], out["w2"], conj)
+            if not ok or len(out["c3"]["stop"]) != 2 or len(out["c3"]["start"]) != 2:
+                return False
+            conj += [TI(out["c3"]["start"][j]) == x[f"new{j}"].t for j in range(2)]
+            conj += [TI(out["c3"]["stop"][j]) == x[f"new{1 - j}"].t + 100 for j in range(2)]
+            return z_and(conj)
         if skel["mode"] == "slice_write_read_parent":
             ok = P._eq(out["f1"], out["f2"], conj) and P._eq(out["w1"], out["w2"], conj)
             return z_and(conj) if ok else False
@@ -521,6 +558,14 @@ class ChunkFields(Harness):
         if skel["mode"] == "read_twice":
             from vlib.job import same
             return None if same(cout["f1"], cout["f2"]) else f"chunk of {text!r}: fields parsed twice differ: {cout['f1']} vs {cout['f2']}"
+        if skel["mode"] == "replace_chain":
+            from vlib.job import same
+            if not same(cout["f1"], cout["f2"]) or cout["w1"] != cout["w2"]:
+                return (f"chunk of {text!r}: c2 = replace(chunk, start=...) has columns {cout['f1']} and writes {bytes(cout['w1'])!r}; after "
+                        f"replace(c2, stop=...) c2 itself has columns {cout['f2']} and writes {bytes(cout['w2'])!r}")
+            exp3 = dict(start=[cx["new0"], cx["new1"]], stop=[cx["new1"] + 100, cx["new0"] + 100])
+            got3 = {k_: [int(v) for v in cout["c3"][k_]] for k_ in ("start", "stop")}
+            return None if got3 == exp3 else f"chunk of {text!r}: replace(replace(chunk, start=..), stop=..) has columns {got3}, expected {exp3}"
         if skel["mode"] == "read_copy_read":
             from vlib.job import same
             if not same(cout["f1"], cout["f2"]):
